@@ -15,14 +15,16 @@ def _nstr(v):
     """a name / base in a case: str | ("path", str) = a pathlib.PurePosixPath of it | None | int (not path-like).
     -> the string os.fspath() gives the code, or None when the value is not path-like"""
     if isinstance(v, str):
-        return v
+        return P.DEEP + v[1:] if v.startswith("@/") else v          # "@/x": an absolute path inside the sandbox
     if isinstance(v, tuple) and v[:1] == ("path",):
         import pathlib
         return os.fspath(pathlib.PurePosixPath(v[1]))
     return None
 
 
-def _nobj(v):
+def _nobj(v, sb=None):
+    if isinstance(v, str) and v.startswith("@/") and sb is not None:
+        return sb.deep + v[1:]
     if isinstance(v, tuple) and v[:1] == ("path",):
         import pathlib
         return pathlib.PurePosixPath(v[1])
@@ -56,7 +58,7 @@ class C29(core.Check):
                   "The filesystem and os.path functions are modelled; the correspondence compares full sandbox snapshots with the real Filer after every step.")
     level_note = ("Trusted: Lean kernel + propext/Classical.choice/Quot.sound; POSIX os.path.join/abspath/splitext/split, os.makedirs, shutil.rmtree, os.remove, "
                   "tempfile.mkdtemp as modelled (exercised by the correspondence on the real filesystem); no symlinks, no permission failures, no alt-path fallback.")
-    quick_n = 700
+    quick_n = 500
     thorough_n = 6000
     rule = ("case = (name, base, temp, clean, filed, extensioned, fext, pre-existing dirs/sentinel files incl. other Filers' files in the holding directory, steps reopen(clear,reuse,clean,temp,fext)* close(clear)) where a third of the reopens change temp and/or fext, ('doer',) steps run a FilerDoer under a Doist, and a third of the cases run inside `with openFiler(...)` (blocks that leave the filer closed included); HOME points into the sandbox and names/bases contain '~', '~/x', '$HOME'; names/bases of 1-3 segments over "
             "plain, dotted ('..', '.', '', '.h', 'a.', '...', '..b', 'x.y') and unicode segments, occasionally absolute; all 16 flag combinations; thorough adds every name of <= 3 segments over "
@@ -134,6 +136,42 @@ class C29(core.Check):
             # neighbours whose names are in prefix relation with the path: none of them is the Filer's
             cs.append(("main", "b", False, False, filed, ext, "text", near, [("reopen", True, False, False, None, None), ("exists",), ("close", True)]))
             cs.append(("main", "b", False, False, filed, ext, "text", near + ([("hio/b/main.text", "f")] if ext else []), [("reopen", True, False, False, True, None), ("close", True)]))
+        for filed, ext in ((False, False), (True, False), (False, True)):
+            # the head directory as parameter / class default, the alternative head as class attribute, resolved against HOME and cwd
+            for param in (None, "", ".", "rel/x", "../up", "~", "~/x", "@/h2/deeper"):
+                cs.append(("main", "b", False, False, filed, ext, "text", [], C, None, (param, "@/head", "@/alt", None, False)))
+                cs.append(("main", "b", False, True, filed, ext, "text", [], [("reopen", True, False, True, None, None), ("close", True)], ("ctx", True), (param, "~/cls", "~", None, False)))
+            # the primary head cannot be used (a regular file sits there): fallback to the alternative head, every spelling of it
+            for alt in ("@/alt", "~", "~/altx", "", "altrel"):
+                for block in ("head", "tail"):
+                    cs.append(("main", "b", False, False, filed, ext, "text", [], C, None, ("@/h2", "@/head", alt, block, False)))
+                    cs.append(("main", "", False, True, filed, ext, "text", [], [("close", False), ("reopen", False, True, True, None, None), ("close", True)], None, (None, "rel", alt, block, False)))
+            # reopen(temp=True) while TempHeadDir does not exist: the call raises, the history goes on (C29-K3)
+            cs.append(("main", "b", False, False, filed, ext, "text", [("hio", "d"), ("hio/b", "d"), ("hio/b/other.text", "f")],
+                       [("reopen", False, False, False, True, None), ("close", True)], None, ("@/head", "@/head", "@/alt", None, True)))
+            cs.append(("main", "b", False, False, filed, ext, "text", [("hio", "d"), ("hio/b", "d"), ("hio/b/other.text", "f")],
+                       [("reopen", False, False, False, True, None)], ("ctx", False), ("@/head", "@/head", "@/alt", None, True)))
+            cs.append(("main", "b", True, False, filed, ext, "text", [], C, None, ("@/head", "@/head", "@/alt", None, True)))
+        for filed in (False, True):
+            for temp in (False, True):
+                # attributes assigned after construction, then reopen(); direct calls of the public remake()
+                for attr, val in (("base", "@/home"), ("base", "@/home/sub"), ("name", "@/cwd/x"), ("base", "../.."), ("name", "../../../x"), ("base", "b2"), ("name", "other"),
+                                  ("filed", not filed), ("extensioned", True)):
+                    cs.append(("main", "b", temp, False, filed, False, "text", [], [("set", attr, val), ("reopen", False, False, False, None, None), ("close", True)]))
+                    cs.append(("main", "b", temp, False, filed, False, "text", [], [("close", False), ("set", attr, val), ("reopen", True, True, False, None, None), ("doer",), ("close", True)]))
+                for nm, bs in (("x", "@/home"), ("@/home/x", ""), ("x", "../.."), ("../../x", "b"), ("y", "b"), ("main", "b")):
+                    for t2 in (False, True):
+                        cs.append(("main", "b", temp, False, filed, False, "text", [], [("remake", nm, bs, t2, True, filed, False), ("remake", nm, bs, t2, False, not filed, True), ("close", True)]))
+        for filed, ext in ((True, False), (False, True), (False, False), (True, True)):
+            for lk in ("lf", "ld"):
+                # a symbolic link to something outside the head sits at the path: clear may remove the link, never its target
+                pth = "hio/b/main.text" if (filed or ext) else "hio/b/main"
+                lpre = [("hio", "d"), ("hio/b", "d"), ("hio/b/keep", "f"), (pth, lk)]
+                cs.append(("main", "b", False, False, filed, ext, "text", lpre, C))
+                cs.append(("main", "b", False, False, filed, ext, "text", lpre, [("reopen", True, False, False, None, None), ("close", True)]))
+                cs.append(("main", "b", False, False, filed, ext, "text", lpre, [("close", False)], ("ctx", True)))
+            cpre = [("hio", "d"), ("hio/clean", "d"), ("hio/clean/b", "d"), ("hio/clean/b/main.text" if (filed or ext) else "hio/clean/b/main", "lf" if (filed or ext) else "ld")]
+            cs.append(("main", "b", False, True, filed, ext, "text", cpre, C))
         sib = [("hio", "d"), ("hio/clean", "d"), ("hio/clean/b", "d"), ("hio/clean/b/keep", "f"), ("hio/clean/b/sib", "d"), ("hio/clean/b/sib/keep", "f")]
         for filed, ext in ((False, False), (True, False), (False, True), (True, True)):
             # the clean path is visited twice: what is there is removed, nothing next to it
@@ -155,7 +193,7 @@ class C29(core.Check):
     # ---------------------------------------------------------------- wire
     def _initial(self, case):
         """initial snapshot (computed on a throw-away sandbox so that the request is self-contained)"""
-        key = repr(case[7])
+        key = repr((case[7], self._hp(case)))
         if key not in self._init_cache:
             sb = P.Sandbox()
             try:
@@ -169,8 +207,35 @@ class C29(core.Check):
 
     @staticmethod
     def _populate(sb, case):
+        import posixpath
+        import shutil
+        hp = C29._hp(case)
+        head = os.path.join(sb.root, *[x.decode("utf-8") for x in P.tok_resolved(C29._head_tok(case))])
+        if hp[3] is not None:
+            # a regular file where the primary head (or its tail directory) should be: creating below it raises OSError
+            spot = head if hp[3] == "head" and not os.path.isdir(head) else os.path.join(head, "hio")
+            if not os.path.lexists(spot):
+                os.makedirs(os.path.dirname(spot), exist_ok=True)
+                open(spot, "w").close()
+        if hp[4]:
+            shutil.rmtree(sb.temphead)
         for rel, kind in case[7]:
-            full = os.path.join(sb.head, rel)
+            full = os.path.join(head, rel)
+            if kind in ("lf", "ld"):
+                # a symbolic link whose target lies OUTSIDE the head, next to sentinel files that must survive everything
+                out_dir = os.path.join(sb.deep, "outside")
+                os.makedirs(out_dir, exist_ok=True)
+                for nm_ in ("keep", "keep2"):
+                    open(os.path.join(out_dir, nm_), "w").close()
+                tgt = os.path.join(out_dir, "target_" + rel.replace("/", "_"))
+                if kind == "lf":
+                    open(tgt, "w").close()
+                else:
+                    os.makedirs(tgt, exist_ok=True)
+                    open(os.path.join(tgt, "inside"), "w").close()
+                os.makedirs(os.path.dirname(full), exist_ok=True)
+                os.symlink(tgt, full)
+                continue
             if kind == "d":
                 os.makedirs(full, exist_ok=True)
             else:
@@ -180,13 +245,26 @@ class C29(core.Check):
     def request(self, case):
         name, base, temp, clean, filed, ext, fext, pre, steps = case[:9]
         return ("filer", None if _nstr(name) is None else _b(_nstr(name)), None if _nstr(base) is None else _b(_nstr(base)), bool(temp), bool(clean), bool(filed), bool(ext), _b(fext),
-                P.HEADSEGS, P.TEMPSEGS, self._initial(case),
+                (None if self._hp(case)[0] is None else P.tok_wire(self._hp(case)[0]), P.tok_wire(self._hp(case)[1]), P.tok_wire(self._hp(case)[2]),
+                 P.HOMESEGS, P.CWDSEGS),
+                P.TEMPSEGS, self._initial(case),
                 tuple(self._wire_step(s) for s in steps),
                 "ctor" if self._entry(case) is None else ("ctx", bool(self._entry(case)[1])))
 
     @staticmethod
     def _entry(case):
         return case[9] if len(case) > 9 else None
+
+    @staticmethod
+    def _hp(case):
+        """(headDirPath parameter token | None, HeadDirPath class attr token, AltHeadDirPath class attr token, block, notemp)"""
+        hp = case[10] if len(case) > 10 and case[10] is not None else ("@/head", "@/head", "@/alt", None, False)
+        return tuple(hp) + (None, False)[len(hp) - 3:] if len(hp) < 5 else tuple(hp)
+
+    @classmethod
+    def _head_tok(cls, case):
+        hp = cls._hp(case)
+        return hp[0] if hp[0] is not None else hp[1]
 
     @staticmethod
     def _norm(step):
@@ -206,6 +284,10 @@ class C29(core.Check):
             return ("doer",) if len(st) < 3 or not st[2] else ("doer", True)
         if st[0] == "exists":
             return (st[0],)
+        if st[0] == "set":
+            return ("set", st[1], _b(_nstr(st[2])) if st[1] in ("name", "base") else bool(st[2]))
+        if st[0] == "remake":
+            return ("remake", _b(_nstr(st[1])), _b(_nstr(st[2]))) + tuple(bool(x) for x in st[3:7])
         return ("close", bool(st[1]))
 
     # ---------------------------------------------------------------- implementation
@@ -218,7 +300,9 @@ class C29(core.Check):
         try:
             self._populate(sb, case)
             init = sb.snapshot()
-            cls = type("SandboxFiler", (filing.Filer,), dict(TempHeadDir=sb.temphead, AltHeadDirPath=sb.alt, HeadDirPath=sb.head))
+            hp = self._hp(case)
+            head_arg = None if hp[0] is None else P.tok_real(sb, hp[0])
+            cls = type("SandboxFiler", (filing.Filer,), dict(TempHeadDir=sb.temphead, AltHeadDirPath=P.tok_real(sb, hp[2]), HeadDirPath=P.tok_real(sb, hp[1])))
             out = [init]
 
             def stage(fn):
@@ -238,7 +322,7 @@ class C29(core.Check):
 
             def make():
                 nonlocal filer
-                filer = cls(name=_nobj(name), base=_nobj(base), temp=temp, headDirPath=sb.head, clean=clean, filed=filed, extensioned=ext, fext=fext,
+                filer = cls(name=_nobj(name, sb), base=_nobj(base, sb), temp=temp, headDirPath=head_arg, clean=clean, filed=filed, extensioned=ext, fext=fext,
                              reopen=True, perm=perm, mode=mode)
 
             def run_steps():
@@ -246,8 +330,19 @@ class C29(core.Check):
                     s = self._norm(s)
                     if s[0] == "reopen":
                         ok = stage(lambda: filer.reopen(clear=s[1], reuse=s[2], clean=s[3], temp=s[4], fext=s[5], perm=perm, mode=mode))
+                    elif s[0] == "set":
+                        # plain attribute assignment after construction; the next reopen / doer uses the new value
+                        ok = stage(lambda: setattr(filer, s[1], _nobj(s[2], sb) if s[1] in ("name", "base") else s[2]))
+                    elif s[0] == "remake":
+                        def direct():
+                            # the public remake(): builds the path it is asked for and hands back (path, file)
+                            _p, _f = filer.remake(name=_nobj(s[1], sb), base=_nobj(s[2], sb), temp=s[3], headDirPath=filer.headDirPath, clean=s[4],
+                                                  filed=s[5], extensioned=s[6], fext=filer.fext, perm=perm, mode=mode)
+                            if _f is not None:
+                                _f.close()
+                        ok = stage(direct)
                     elif s[0] == "exists":
-                        ok = stage(lambda: filer.exists(name=filer.name, base=filer.base, headDirPath=sb.head, clean=clean, filed=filer.filed,
+                        ok = stage(lambda: filer.exists(name=filer.name, base=filer.base, headDirPath=filer.headDirPath, clean=clean, filed=filer.filed,
                                                         extensioned=filer.extensioned, fext=filer.fext))
                     elif s[0] == "doer":
                         def run_doer():
@@ -258,13 +353,14 @@ class C29(core.Check):
                         ok = stage(run_doer)
                     else:
                         ok = stage(lambda: filer.close(clear=s[1]))
-                    if not ok:
-                        break
+                    # a caller may catch the exception and go on: the history continues after a fault
 
             entry = self._entry(case)
             perm, mode = _extras(case)
             old_home = os.environ.get("HOME")
+            old_cwd = os.getcwd()
             os.environ["HOME"] = sb.home
+            os.chdir(sb.cwd)
             try:
                 if entry is None:
                     if stage(make):
@@ -274,7 +370,7 @@ class C29(core.Check):
 
                     def enter():
                         nonlocal filer
-                        cm = filing.openFiler(cls=cls, name=_nobj(name), base=_nobj(base), temp=temp, headDirPath=sb.head, clean=clean, filed=filed,
+                        cm = filing.openFiler(cls=cls, name=_nobj(name, sb), base=_nobj(base, sb), temp=temp, headDirPath=head_arg, clean=clean, filed=filed,
                                               extensioned=ext, fext=fext, reopen=True, clear=entry[1], perm=perm, mode=mode)
                         filer = cm.__enter__()
                         opened.append(cm)
@@ -282,6 +378,7 @@ class C29(core.Check):
                         run_steps()
                         stage(lambda: opened[0].__exit__(None, None, None))
             finally:
+                os.chdir(old_cwd)
                 if old_home is None:
                     os.environ.pop("HOME", None)
                 else:
@@ -302,7 +399,8 @@ class C29(core.Check):
         out = []
         init = obs[0]
         prev = set(init)
-        head = P.HEADSEGS
+        head = P.tok_resolved(self._head_tok(case))      # the requested head, resolved independently of code and model
+        alth = P.tok_resolved(self._hp(case)[2])
         tmph = P.TEMPSEGS
         path = None
         cur_temp = bool(temp)
@@ -314,10 +412,14 @@ class C29(core.Check):
         def in_head(p):      # strictly inside: the head directory itself is not the Filer's to create or delete
             return len(p) > len(head) and p[:len(head)] == head
 
+        def in_alt(p):
+            return len(p) > len(alth) and p[:len(alth)] == alth
+
         def inside(p, t):
             return in_temp(p) if t else in_head(p)
 
         for i, (res, snap) in enumerate(obs[1:]):
+            was_open = is_open
             cur = set(snap)
             created = cur - prev
             deleted = prev - cur
@@ -335,12 +437,21 @@ class C29(core.Check):
                 new_temp = bool(step[4])
             elif step is not None and step[0] == "reopen" and step[4] is not None:
                 new_temp = None     # the call raised: either setting may have been in force
+            elif step is not None and step[0] == "remake":
+                new_temp = None     # a direct remake(temp=…) builds below the head or below a fresh mkdtemp directory, as asked
             elif step is not None and step[0] == "doer" and len(step) >= 3 and step[2]:
                 new_temp = None     # an injected temp is taken over only when the doer had to open the filer
-            ok_new = (lambda p: in_temp(p) or in_head(p)) if new_temp is None else (lambda p: inside(p, new_temp))
-            if any(not ok_new(p) for p, _ in created):
+            # the alternative head is the Filer's own only when it actually fell back to it: its path lies below it
+            fell = res[0] == "ok" and res[1] is not None and in_alt(res[1]) and not in_head(res[1])
+            was_alt = path is not None and in_alt(path) and not in_head(path)
+            ok_new = (lambda p: in_temp(p) or in_head(p) or (fell and in_alt(p))) if new_temp is None else \
+                (lambda p: inside(p, new_temp) or (fell and not new_temp and in_alt(p)))
+            # a head directory that does not exist yet is created by the Filer itself (makedirs): allowed; deleting a head
+            # directory that was there before is not (the strict tests above)
+            made_head = {e for e in created if e[1] == "d" and (e[0] == head[:len(e[0])] or (fell and e[0] == alth[:len(e[0])]))}      # the head and its missing ancestors
+            if any(not ok_new(p) for p, _ in created - made_head):
                 out.append((i, "created-outside-head", old_temp, path))
-            if any(not (inside(p, old_temp) or ok_new(p) or (path is not None and p[:len(path)] == path)) for p, _ in deleted):
+            if any(not (inside(p, old_temp) or ok_new(p) or (was_alt and in_alt(p)) or (path is not None and p[:len(path)] == path)) for p, _ in deleted):
                 out.append((i, "deleted-outside-head", old_temp, path))
             newpath = res[1] if res[0] == "ok" and res[1] is not None else path
             own = [q for q in (path, newpath) if q is not None]
@@ -372,13 +483,15 @@ class C29(core.Check):
             if res[0] == "ok" and res[1] is not None:
                 path = res[1]
             if res[0] == "ok":
-                is_open = step is None or step[0] == "reopen" or (step[0] == "exists" and is_open)
-            else:
-                is_open = False
+                is_open = step is None or step[0] == "reopen" or (step[0] in ("exists", "set", "remake") and is_open)
+            elif step is None or step[0] in ("reopen", "close", "doer"):
+                is_open = False          # (a failed set / remake() / exists() leaves the filer as it was)
             if new_temp is not None:
                 cur_temp = new_temp
+            elif step is not None and step[0] == "remake":
+                pass                # the Filer's own setting is not touched by a direct remake()
             elif step is not None and step[0] == "doer" and res[0] == "ok" and res[1] is not None:
-                cur_temp = in_temp(res[1]) if res[1] != path else cur_temp
+                cur_temp = cur_temp if was_open or not (len(step) >= 3 and step[2]) else True      # the doer takes the injected temp over iff it has to open the filer
             prev = cur
         return out
 
@@ -405,24 +518,31 @@ class C29(core.Check):
             if cl == "deleted-outside-head":
                 prev = set(obs[0]) if i == 0 else set(obs[i][1])
                 gone = prev - set(snap)
-                hd = P.HEADSEGS
+                hd = P.tok_resolved(self._head_tok(case))
                 if not all((len(p) > len(hd) and p[:len(hd)] == hd) or (len(p) > n and p[:n] == P.TEMPSEGS and p[n].startswith(b"TMP")) for p, _ in gone):
                     return None          # really outside both heads: never a known finding
-            if cl in ("clear-removed-outside-path", "removed-foreign-entry", "deleted-outside-head"):
+            if cl in ("clear-removed-outside-path", "removed-foreign-entry", "deleted-outside-head", "close-without-clear-deleted"):
                 # the temp SETTING and the kind of path disagree because an earlier reopen(reuse=True, temp=...) kept the
                 # old path while taking over the new setting; the clear of THIS stage then used the wrong rule
                 steps = [self._norm(s) for s in case[8]]
                 kept_flip = any(s[0] == "reopen" and s[2] and s[4] is not None for s in steps[:max(i - 1, 0)])
-                persistent = path is not None and path[:len(P.HEADSEGS)] == P.HEADSEGS
+                failed_flip = any(s[0] == "reopen" and s[4] is not None and obs[2 + j][0][0] == "raise"
+                                  for j, s in enumerate(steps[:max(i - 1, 0)]) if 2 + j < len(obs))
+                hd = P.tok_resolved(self._head_tok(case))
+                al = P.tok_resolved(self._hp(case)[2])
+                persistent = path is not None and (path[:len(hd)] == hd or path[:len(al)] == al) and not (len(path) > n and path[:n] == P.TEMPSEGS)
                 if kept_flip and old_temp and persistent:
                     ids.add("C29-K2")
+                    continue
+                if failed_flip and persistent:      # (which setting is in force after the failed call is exactly what is wrong)
+                    ids.add("C29-K3")
                     continue
                 return None
             return None
         if len(ids) == 1:
             return ids.pop()
-        if ids == {"C29-K1", "C29-K2"}:
-            return "C29-K2"
+        if ids and ids <= {"C29-K1", "C29-K2", "C29-K3"}:
+            return sorted(ids - {"C29-K1"})[0]
         return None
 
     def nontrivial(self, case, obs):
@@ -445,12 +565,29 @@ class C29(core.Check):
             f.append("has-dot-or-empty")
         if pre:
             f.append("pre-populated")
+        if any(k in ("lf", "ld") for _, k in pre):
+            f.append("symlink-at-path")
         if "~" in name or "~" in base:
             f.append("has-tilde")
         f.append("entry:" + ("ctor" if self._entry(case) is None else "openFiler"))
+        if len(case) > 10 and case[10] is not None:
+            hp = self._hp(case)
+            f.append("head-param:" + ("None" if hp[0] is None else "abs" if hp[0].startswith("@") else "tilde" if hp[0].startswith("~") else "empty" if hp[0] == "" else "relative"))
+            f.append("alt-attr:" + ("abs" if hp[2].startswith("@") else "tilde" if hp[2].startswith("~") else "relative"))
+            if hp[3]:
+                f.append("head-blocked:" + hp[3])
+            if hp[4]:
+                f.append("no-TempHeadDir")
+            if len(obs) > 1 and obs[1][0][0] == "ok" and obs[1][0][1] is not None:
+                al = P.tok_resolved(hp[2])
+                if obs[1][0][1][:len(al)] == al:
+                    f.append("fell-back-to-alt-head")
         f.append(f"steps:{len(steps)}")
         for s in steps:
             s = self._norm(s)
+            if s[0] in ("set", "remake"):
+                f.append("step:" + s[0] + (":" + s[1] if s[0] == "set" else ""))
+                continue
             f.append("step:" + s[0] + ("+clear" if len(s) > 1 and s[1] else "") + ("+temp=" + str(s[4]) if s[0] == "reopen" and s[4] is not None else "") + (f"+{s[1]}-temp={s[2]}" if s[0] == "doer" and len(s) >= 3 and s[2] is not None else "")
                      + ("+fext" if s[0] == "reopen" and s[5] is not None else ""))
         return f
